@@ -29,6 +29,7 @@ func runC32(c *Ctx) {
 		c.Undecided("R-BOUNDS", pkg, "package", "-", "not loaded")
 		return
 	}
+	c32DecryptClamp(c)
 	// ---------------- bounds
 	scope := []string{
 		"(*" + pkg + ".rsaKeyAgreement).processClientKeyExchange",
